@@ -5,6 +5,7 @@ import (
 	"errors"
 	"io"
 	"math/rand"
+	"sort"
 
 	"github.com/wrgl/wrgl/pkg/ref"
 )
@@ -22,6 +23,9 @@ type c11Input struct {
 	// rmanc: the frontier is started from Queue and advanced by Steps pops before RemoveAncestors(Inputs)
 	Queue []int `json:"queue,omitempty"`
 	Steps int   `json:"steps,omitempty"`
+	// *-fault ops: the store fails its Fault-th read of a commit object during the query, once
+	// (a transient input/output error); every other read is served
+	Fault int `json:"fault,omitempty"`
 }
 
 func graphNontrivial(g []GCommit) bool {
@@ -164,6 +168,248 @@ func c11RemoveAncestors(bg *BuiltGraph, starts []int, steps int, inputs []int) R
 	})
 }
 
+// ---- one transient read failure during a query ------------------------------------------------
+//
+// The object store fails exactly one read of a commit object (the k-th one issued by the query) and
+// serves every other read. Whatever the query does about it, it must not present a partial walk as
+// a complete one: a definite answer (true/false, a finished walk, "no common ancestor") must be the
+// right one for the whole graph; otherwise the query reports an error.
+
+// c11FaultDB wraps the graph's store so that its k-th read of a commit fails once (k <= 0: no read
+// fails; the wrapper then only counts). reads() is the number of commit reads seen so far.
+type c11FaultDB struct {
+	*readFaultStore
+	start int
+}
+
+const c11Unarmed = 1 << 30
+
+func c11NewFaultDB(bg *BuiltGraph, k int) *c11FaultDB {
+	if k <= 0 {
+		k = c11Unarmed
+	}
+	return &c11FaultDB{readFaultStore: &readFaultStore{Store: bg.DB, prefix: "com/", left: k}, start: k}
+}
+
+func (s *c11FaultDB) reads() int {
+	if s.fired {
+		return s.start
+	}
+	return s.start - s.left
+}
+
+// c11WithFault stamps the result with whether the fault was delivered.
+func c11WithFault(db *c11FaultDB, res Res) Res {
+	res["fired"] = db.fired
+	return res
+}
+
+func c11IsAncFault(bg *BuiltGraph, a, b, k int) (Res, int) {
+	db := c11NewFaultDB(bg, k)
+	res := Guard(func() Res {
+		ok, err := ref.IsAncestorOf(db, bg.Sums[a], bg.Sums[b])
+		if err != nil {
+			return Err("error")
+		}
+		return Ok(ok)
+	})
+	return c11WithFault(db, res), db.reads()
+}
+
+func c11WalkFault(bg *BuiltGraph, starts []int, k int) (Res, int) {
+	db := c11NewFaultDB(bg, k)
+	res := Guard(func() Res {
+		sums := [][]byte{}
+		for _, s := range starts {
+			sums = append(sums, bg.Sums[s])
+		}
+		q, err := ref.NewCommitsQueue(db, sums)
+		if err != nil {
+			return Err("error")
+		}
+		out := []int{}
+		for {
+			sum, _, err := q.PopInsertParents()
+			if errors.Is(err, io.EOF) {
+				break
+			}
+			if err != nil {
+				return Err("error")
+			}
+			out = append(out, bg.IDs[string(sum)])
+			if len(out) > 100000 {
+				return Err("nontermination")
+			}
+		}
+		return Ok(out)
+	})
+	return c11WithFault(db, res), db.reads()
+}
+
+// c11SeekFault keeps "no common ancestor" (a definite answer) apart from any other error.
+func c11SeekFault(bg *BuiltGraph, inputs []int, k int) (Res, int) {
+	db := c11NewFaultDB(bg, k)
+	res := Guard(func() Res {
+		sums := make([][]byte, len(inputs))
+		for i, x := range inputs {
+			sums[i] = bg.Sums[x]
+		}
+		base, err := ref.SeekCommonAncestor(db, sums...)
+		if err != nil {
+			if err.Error() == "common ancestor commit not found" {
+				return Err("not-found")
+			}
+			return Err("error")
+		}
+		if base == nil {
+			return Ok(nil)
+		}
+		return Ok(bg.IDs[string(base)])
+	})
+	return c11WithFault(db, res), db.reads()
+}
+
+// c11RemoveAncestorsFault: the frontier is built on the healthy store; the fault is delivered
+// during RemoveAncestors(inputs) only.
+func c11RemoveAncestorsFault(bg *BuiltGraph, starts []int, steps int, inputs []int, k int) (Res, int) {
+	db := c11NewFaultDB(bg, k)
+	res := Guard(func() Res {
+		if steps < 0 || steps > 1000 {
+			steps = 0
+		}
+		q0, err := c11Frontier(bg, starts, steps)
+		if err != nil {
+			return Err("setup")
+		}
+		// same frontier, held by a queue that reads through the faulty store from now on
+		ssums := [][]byte{}
+		for _, s := range starts {
+			ssums = append(ssums, bg.Sums[s])
+		}
+		hold := db.left
+		db.left = 0 // not counting, not failing while the frontier is built
+		q1, err := ref.NewCommitsQueue(db, ssums)
+		for i := 0; err == nil && i < steps; i++ {
+			if _, _, e := q1.PopInsertParents(); e != nil {
+				if errors.Is(e, io.EOF) {
+					break
+				}
+				err = e
+			}
+		}
+		db.left = hold
+		if err != nil {
+			return Err("setup")
+		}
+		sums := [][]byte{}
+		for _, s := range inputs {
+			sums = append(sums, bg.Sums[s])
+		}
+		if err := q1.RemoveAncestors(sums); err != nil {
+			return Err("error")
+		}
+		return Ok(map[string]interface{}{"before": c11Drain(bg, q0), "after": c11Drain(bg, q1)})
+	})
+	return c11WithFault(db, res), db.reads()
+}
+
+// c11Ancestors: ancestors-or-self of b, for choosing queries whose answer depends on the whole walk
+// (generation only; the oracle is Lean's).
+func c11Ancestors(g []GCommit, b int) []int {
+	ps := map[int][]int{}
+	for _, c := range g {
+		ps[c.ID] = c.Parents
+	}
+	seen := map[int]bool{b: true}
+	out := []int{b}
+	for i := 0; i < len(out); i++ {
+		for _, p := range ps[out[i]] {
+			if !seen[p] {
+				seen[p] = true
+				out = append(out, p)
+			}
+		}
+	}
+	sort.Ints(out)
+	return out
+}
+
+func c11FaultTags(res Res) []string {
+	if f, _ := res["fired"].(bool); f {
+		return []string{"read-fault", "fault-delivered"}
+	}
+	return []string{"read-fault"}
+}
+
+// c11FaultCases: four queries on the case's graph, each with one transient read failure placed at a
+// read the query really issues (counted on a first, healthy run of the same query).
+func c11FaultCases(ctx *Ctx, g []GCommit, bg *BuiltGraph, n int, nt bool) {
+	r := rand.New(rand.NewSource(ctx.Seed*104729 + int64(ctx.Idx)*53 + 29))
+	pick := func(reads int) int {
+		if reads <= 0 {
+			return 1
+		}
+		return 1 + r.Intn(reads)
+	}
+	// a query from a commit with the longest history, about one of its ancestors most of the time
+	deep := 1
+	for i := 1; i <= n; i++ {
+		if len(c11Ancestors(g, i)) > len(c11Ancestors(g, deep)) {
+			deep = i
+		}
+	}
+	{
+		b := deep
+		if r.Intn(3) == 0 {
+			b = 1 + r.Intn(n)
+		}
+		anc := c11Ancestors(g, b)
+		a := anc[r.Intn(len(anc))]
+		if r.Intn(4) == 0 {
+			a = 1 + r.Intn(n)
+		}
+		_, reads := c11IsAncFault(bg, a, b, 0)
+		k := pick(reads)
+		res, _ := c11IsAncFault(bg, a, b, k)
+		ctx.Emit("isanc-fault", c11Input{Graph: g, A: a, B: b, Fault: k}, res, nt && a != b, c11FaultTags(res)...)
+	}
+	{
+		st := []int{deep}
+		for i, m := 0, r.Intn(3); i < m; i++ {
+			st = append(st, 1+r.Intn(n))
+		}
+		_, reads := c11WalkFault(bg, st, 0)
+		k := pick(reads)
+		res, _ := c11WalkFault(bg, st, k)
+		ctx.Emit("walk-fault", c11Input{Graph: g, Inputs: st, Fault: k}, res, nt, c11FaultTags(res)...)
+	}
+	{
+		in := make([]int, 2+r.Intn(2))
+		for i := range in {
+			in[i] = 1 + r.Intn(n)
+		}
+		_, reads := c11SeekFault(bg, in, 0)
+		k := pick(reads)
+		res, _ := c11SeekFault(bg, in, k)
+		ctx.Emit("seek-fault", c11Input{Graph: g, Inputs: in, Fault: k}, res, nt, append(c11FaultTags(res), seekTags(in)...)...)
+	}
+	{
+		st := make([]int, 1+r.Intn(3))
+		for i := range st {
+			st[i] = 1 + r.Intn(n)
+		}
+		steps := r.Intn(2)
+		in := []int{deep}
+		if r.Intn(2) == 0 {
+			in = append(in, 1+r.Intn(n))
+		}
+		_, reads := c11RemoveAncestorsFault(bg, st, steps, in, 0)
+		k := pick(reads)
+		res, _ := c11RemoveAncestorsFault(bg, st, steps, in, k)
+		ctx.Emit("rmanc-fault", c11Input{Graph: g, Queue: st, Steps: steps, Inputs: in, Fault: k}, res, nt, c11FaultTags(res)...)
+	}
+}
+
 func seekTags(in []int) []string {
 	if len(in) >= 3 {
 		return []string{"inputs>=3"}
@@ -229,6 +475,9 @@ func runC11(ctx *Ctx) {
 		}
 		ctx.Emit("rmanc", c11Input{Graph: g, Queue: st, Steps: steps, Inputs: in}, c11RemoveAncestors(bg, st, steps, in), nt, "remove-ancestors")
 	}
+	// the same kinds of query with one transient read failure (streams of their own, after
+	// everything else of the case)
+	c11FaultCases(ctx, g, bg, n, nt)
 }
 
 func corpusC11(ctx *Ctx, op string, raw json.RawMessage) {
@@ -252,5 +501,17 @@ func corpusC11(ctx *Ctx, op string, raw json.RawMessage) {
 		ctx.Emit(op, in, c11Seek(bg, in.Inputs), nt, seekTags(in.Inputs)...)
 	case "rmanc":
 		ctx.Emit(op, in, c11RemoveAncestors(bg, in.Queue, in.Steps, in.Inputs), nt, "remove-ancestors")
+	case "isanc-fault":
+		res, _ := c11IsAncFault(bg, in.A, in.B, in.Fault)
+		ctx.Emit(op, in, res, nt, c11FaultTags(res)...)
+	case "walk-fault":
+		res, _ := c11WalkFault(bg, in.Inputs, in.Fault)
+		ctx.Emit(op, in, res, nt, c11FaultTags(res)...)
+	case "seek-fault":
+		res, _ := c11SeekFault(bg, in.Inputs, in.Fault)
+		ctx.Emit(op, in, res, nt, append(c11FaultTags(res), seekTags(in.Inputs)...)...)
+	case "rmanc-fault":
+		res, _ := c11RemoveAncestorsFault(bg, in.Queue, in.Steps, in.Inputs, in.Fault)
+		ctx.Emit(op, in, res, nt, c11FaultTags(res)...)
 	}
 }
